@@ -14,7 +14,7 @@ CMDS = ['put', 'list', 'restore', 'empty', 'empty-days', 'rm']
 def config(tier):
     return {
         'level': 'exploration',
-        'cases': 450 if tier == 'quick' else 40000,
+        'cases': 3000 if tier == 'quick' else 40000,
         'budget_s': 50 if tier == 'quick' else 560,
         'floors': {'cases': 150, 'insecure_cmd_runs': 400,
                    'secure_cmd_runs': 80, 'canary_subtrees_compared': 400,
